@@ -1,6 +1,6 @@
 (* C18 -- the same configuration means the same thing in every config format. *)
 From Coq Require Import List Bool NArith.
-From BV Require Import Lib.PyStr Model.V2 Model.V1 Model.Config Gen.Tables Proofs.ConfigFacts.
+From BV Require Import Lib.PyStr Model.V2 Model.V1 Model.Config Gen.Tables Proofs.ConfigFactsC18.
 Import ListNotations.
 Local Open Scope N_scope.
 
@@ -22,7 +22,7 @@ Proof. exact repo_truthy_table. Qed.
 Print Assumptions C18_repo_truthy_table.
 
 (* the two readers agree: an INI file and a TOML file that spell the same abstract settings
-   (abscfg, raw_ini, raw_toml in Proofs/ConfigFacts.v) give the same effective configuration *)
+   (abscfg, raw_ini, raw_toml in Proofs/ConfigFactsC18.v) give the same effective configuration *)
 Theorem C18_formats_agree : forall a spell quote,
   (forall b, mem_str (lower_ascii (spell b)) INI_TRUTHY = b) ->
   (forall s, strip_q (quote s) = strip_q s) ->
